@@ -41,7 +41,8 @@ package fox
 //@   requires 0 <= w
 //@   requires len(*buf) == 0 ==> w < len(s)
 //@   requires len(*buf) != 0 ==> w < len(*buf)
-//@   modifies *buf, E[byte], alloc
+//@   modifies *buf, elems(*buf)
+//@   ensures own: ref(*buf) == old(ref(*buf)) || fresh(*buf)
 //@   ensures lazy: old(len(*buf)) == 0 && s[w] == c ==> len(*buf) == 0
 //@   ensures alloc: old(len(*buf)) == 0 && s[w] != c ==> len(*buf) == len(s) && (*buf)[w] == c
 //@   ensures copied: old(len(*buf)) == 0 && s[w] != c ==> forall i int :: 0 <= i && i < w ==> (*buf)[i] == s[i]
@@ -55,6 +56,7 @@ package fox
 //@   loop 1: invariant trail2: trailing <==> (n > 1 && p[n-1] == '/') || (r >= n && endsDot(p))
 //@   loop 1: invariant bounds: 1 <= w && 0 <= r && r <= n+1 && n == len(p) && n >= 1
 //@   loop 1: invariant buflen: len(buf) == 0 || len(buf) == n || len(buf) == n+1
+//@   loop 1: invariant owned: fresh(buf)
 //@   loop 1: invariant lazy: len(buf) != n+1 <==> p[0] == '/'
 //@   loop 1: invariant wr: len(buf) != n+1 ==> w <= r && (w > 1 && w == r ==> r >= n || p[r] == '/')
 //@   loop 1: invariant wr1: len(buf) == n+1 ==> w <= r+1 && (w > 1 && w == r+1 ==> r >= n || p[r] == '/')
@@ -71,6 +73,7 @@ package fox
 //@   loop 3: decreases w
 //@   loop 4: invariant entry(r) <= r && r <= n && w - entry(w) == r - entry(r) && entry(w) >= 1
 //@   loop 4: invariant buflen: len(buf) == 0 || len(buf) == n || len(buf) == n+1
+//@   loop 4: invariant owned: fresh(buf)
 //@   loop 4: invariant lazy: len(buf) != n+1 <==> p[0] == '/'
 //@   loop 4: invariant len(buf) != n+1 ==> entry(w) <= entry(r)
 //@   loop 4: invariant len(buf) == n+1 ==> entry(w) <= entry(r)+1
@@ -182,3 +185,27 @@ package fox
 //@   behavior complete
 //@   requires validPath(url, fox.maxParams, fox.maxParamKeyBytes)
 //@   ensures accepted: result2 == nil
+
+//@ -- ---------------------------------------------------------------- C01: edge search (both sides of the 50-child switch)
+
+//@ pred sortedBytes(keys []byte) = forall a int, b int :: {keys[a], keys[b]} 0 <= a && a < b && b < len(keys) ==> keys[a] <= keys[b]
+
+//@ func linearSearch props C01
+//@   ensures found: result >= 0 ==> result < len(keys) && keys[result] == s
+//@   ensures first: result >= 0 ==> forall i int :: {keys[i]} 0 <= i && i < result ==> keys[i] != s
+//@   ensures absent: result < 0 ==> result == -1 && forall i int :: {keys[i]} 0 <= i && i < len(keys) ==> keys[i] != s
+//@   loop 1: invariant 0 <= i && i <= len(keys)
+//@   loop 1: invariant forall k int :: {keys[k]} 0 <= k && k < i ==> keys[k] != s
+//@   loop 1: decreases len(keys) - i
+
+//@ func compare props C01
+//@   ensures (a == b ==> result == 0) && (a < b ==> result < 0) && (a > b ==> result > 0)
+
+//@ func binarySearch props C01
+//@   requires sortedBytes(keys)
+//@   ensures found: result >= 0 ==> result < len(keys) && keys[result] == s
+//@   ensures absent: result < 0 ==> forall i int :: {keys[i]} 0 <= i && i < len(keys) ==> keys[i] != s
+//@   loop 1: invariant 0 <= low && high < len(keys) && low <= high + 1
+//@   loop 1: invariant forall i int :: {keys[i]} 0 <= i && i < low ==> keys[i] < s
+//@   loop 1: invariant forall i int :: {keys[i]} high < i && i < len(keys) ==> keys[i] > s
+//@   loop 1: decreases high - low + 1
